@@ -6,7 +6,7 @@
    `Shape` is computed from the grammar value generated from gsd.pest (GsdShape.child_rx); the correspondence
    driver checks `shapeb` on every pair tree the real pest parser produced and compares `interp` on that real
    tree with the real parser's result. *)
-From PB Require Import Common GsdGrammar GsdTables GsdInterp GsdShape GsdRender C19Shape C19Proofs C19Fidelity.
+From PB Require Import Common GsdGrammar GsdTables GsdInterp GsdShape GsdRender Peg C19Shape C19Proofs C19Fidelity C19Peg.
 
 (* ------------------------------------------------------------------------------------------ (A) no panic *)
 
@@ -47,6 +47,20 @@ Print Assumptions C19_interp_never_panics.
 Theorem C19_checked_trees_no_panic : forall t : tree, shapeb t = true -> no_panic (interp t).
 Proof. exact interp_checked_no_panic. Qed.
 Print Assumptions C19_checked_trees_no_panic.
+
+(* Text level, relative to Model/Peg.v (the PEG interpreter with the semantics of pest; it is VALIDATED against the
+   real pest parser at tree level on every case of a run, not verified): every pair tree the PEG model returns for
+   ANY text has the grammar-derived shape (so `child_rx` is not an extra assumption), and therefore whatever text the
+   PEG model accepts, the interpretation of its pair tree cannot panic. *)
+Theorem C19_peg_tree_shape : forall (text : str) (t : tree),
+  peg_parse text = Ok (Some t) -> Shape t /\ root t = R_gsd.
+Proof. exact peg_tree_shape. Qed.
+Print Assumptions C19_peg_tree_shape.
+
+Theorem C19_text_level_no_panic : forall (text : str) (t : tree),
+  peg_parse text = Ok (Some t) -> no_panic (interp t).
+Proof. exact peg_then_interp_no_panic. Qed.
+Print Assumptions C19_text_level_no_panic.
 
 (* ------------------------------------------------------------------------------------------ (B) fidelity, PARTIAL *)
 
@@ -124,3 +138,19 @@ Example C19_dangling_reference_is_error :
              Node R_EOI [] []] in
   shapeb t = true /\ interp t = PErr.
 Proof. vm_compute. split; reflexivity. Qed.
+
+(* the text-level theorems are not vacuous: the PEG model parses a small file (hexadecimal number, comment, CR LF,
+   a continuation inside a string), the tree is well shaped and the values arrive *)
+Definition ex_text : str :=
+  [35; 80; 114; 111; 102; 105; 98; 117; 115; 95; 68; 80; 10; 71; 83; 68; 95; 82; 101; 118; 105; 115; 105; 111; 110; 32; 61; 32; 48; 120; 49; 70; 32; 59; 32; 99; 13; 10; 86; 101; 110; 100; 111; 114; 95; 78; 97; 109; 101; 61; 34; 97; 92; 10; 98; 34; 10].
+Example C19_peg_example :
+  match peg_parse ex_text with
+  | Ok (Some t) =>
+      shapeb t = true /\
+      match interp t with
+      | POk (d, _) => d_num d NF_gsd_revision = 31 /\ d_str d SF_vendor = [97; 98]
+      | _ => False
+      end
+  | _ => False
+  end.
+Proof. vm_compute. repeat split; reflexivity. Qed.
